@@ -16,7 +16,7 @@ RULE = ("forward + round trip: all 2^24 colours (thorough) / 2^20 stratified + a
         "the _safe contracts also fire on every candidate of an optimiser side workload. Non-trivial = every distinct colour/triple judged.")
 ASSUMPTIONS = ["oracles/oklab.py: Ottosson's published matrices, inverses computed numerically, self-tested on the published example rows",
                "'L=0 black' is demanded on the achromatic axis only: the published definition + clipping gives (20,0,0) for (0,0.3,0deg)"]
-MUST_OBSERVE = {"any": ["forward_checked", "roundtrip_checked", "inverse_checked", "safe_invalid_checked", "contract:oklch_to_rgb_safe"]}
+MUST_OBSERVE = {"any": ["forward_checked", "roundtrip_checked", "inverse_checked", "safe_invalid_checked"]}
 EXHAUSTIVE = {"thorough": ["forward conversion, ranges and round trip over all 2^24 colours"], "quick": []}
 FWD_TOL = 2e-5
 
